@@ -346,12 +346,13 @@ pub struct KnownFinding {
     pub what: String,
 }
 
-fn tracked_cols(a: usize) -> i64 {
-    // Key is column 0 of every archetype, Trk is column 14.
-    1 + if a >= 14 { 1 } else { 0 }
+pub fn tracked_cols(a: usize) -> i64 {
+    // Key is column 0 of every archetype, Trk is column 14 (present from arity 15 on).
+    1 + if ARITIES[a] >= 15 { 1 } else { 0 }
 }
-fn zed_cols(a: usize) -> i64 {
-    if a >= 1 {
+pub fn zed_cols(a: usize) -> i64 {
+    // Zed is column 1 (present from arity 2 on).
+    if ARITIES[a] >= 2 {
         1
     } else {
         0
@@ -1160,7 +1161,7 @@ impl Sys {
                         rp = RP_FIND;
                     }
                     let wp = (sel % N_WRITE_PATHS as u32) as u8;
-                    let nv = self.fresh_vals(a + 1);
+                    let nv = self.fresh_vals(ARITIES[a]);
                     let r: R<(Option<Row>, bool)> = with_arch!(a, A => {
                         let key = self.key_for::<A>(w, ent.any, kind, Via::Arch)?;
                         let world = self.worlds[w].as_mut().unwrap();
